@@ -62,15 +62,20 @@ func (w *world) mappingFor(c *Cell, rid int64, socks bool) string {
 	case "own":
 		// a mapping the requester is a party of, if any
 		maps, _ := w.srv.Cloud.GetClientPortMappings(rid)
-		var ids []string
+		type cand struct {
+			port int
+			id   string
+		}
+		var cs []cand
 		for _, m := range maps {
 			if m.ListenClientID == rid || m.TargetClientID == rid {
-				ids = append(ids, m.ID)
+				cs = append(cs, cand{m.SourcePort, m.ID})
 			}
 		}
-		sort.Strings(ids)
-		if rid != 0 && len(ids) > 0 {
-			return ids[0]
+		// ids are random per world: order by the listen port, which the case determines
+		sort.Slice(cs, func(i, j int) bool { return cs[i].port > cs[j].port })
+		if rid != 0 && len(cs) > 0 {
+			return cs[0].id
 		}
 		return "pm_does_not_exist"
 	}
@@ -293,8 +298,8 @@ func (w *world) step(c *Cell) (res stepResult) {
 		return
 	}
 	out := w.exchange(rq, pkt, c.Identity)
-	if out.hung {
-		res.f = &fail{"C11/harness/push-did-not-return", fmt.Sprintf("cell %+v", *c)}
+	if out.hung || out.recvErr != "" {
+		res.f = &fail{"C11/harness/push-did-not-return-or-packet-unreadable", fmt.Sprintf("cell %+v hung=%v recvErr=%s", *c, out.hung, out.recvErr)}
 		return
 	}
 	// a newly generated code is only known from the reply
@@ -381,6 +386,12 @@ func (w *world) judge(sp *spec, c *Cell, rid int64, m *meta, before, after snaps
 	}
 	cls := idClass(c.Identity, party)
 	res.class = fmt.Sprintf("%s/%s", sp.Name, cls)
+	if sp.Public || sp.Object == "none" {
+		// nothing of another client is named: only authenticated / unauthenticated matters
+		if authed {
+			res.class = fmt.Sprintf("%s/authenticated", sp.Name)
+		}
+	}
 	res.nontriv = !party && objExists && !sp.Public
 	if sp.Public {
 		res.nontriv = false
@@ -619,6 +630,20 @@ func (w *world) stepResponse(sp *spec, c *Cell, rq *miniserver.Client, rid int64
 		return
 	}
 	claim := w.claimed(c, rid)
+	if c.Pending {
+		// the asker and the target must be online before the state is recorded (an earlier step may have closed them)
+		for _, n := range []string{"L", "T"} {
+			if _, err := w.requester(n); err != nil {
+				res.f = &fail{"C11/harness/setup-failed", err.Error()}
+				return
+			}
+		}
+		var err error
+		if rq, err = w.requester(c.Identity); err != nil {
+			res.f = &fail{"C11/harness/setup-failed", err.Error()}
+			return
+		}
+	}
 	before, err := w.snap(nil, nil)
 	if err != nil {
 		res.f = &fail{"C11/harness/snapshot-failed", err.Error()}
@@ -659,12 +684,6 @@ func (w *world) stepResponse(sp *spec, c *Cell, rq *miniserver.Client, rid int64
 			res.f = &fail{"C11/harness/setup-failed", err.Error()}
 			return
 		}
-		if c.Identity != "none" && c.Identity != "challenged" {
-			if rq, err = w.requester(c.Identity); err != nil { // L/T re-login may have replaced nothing, but keep the handle fresh
-				res.f = &fail{"C11/harness/setup-failed", err.Error()}
-				return
-			}
-		}
 		done := make(chan string, 1)
 		var wantType packet.CommandType
 		switch sp.Type {
@@ -685,7 +704,7 @@ func (w *world) stepResponse(sp *spec, c *Cell, rq *miniserver.Client, rid int64
 		case packet.HTTPProxyResponse:
 			wantType = packet.HTTPProxyRequest
 			go func() {
-				r, err := w.srv.SM.SendHTTPProxyRequest(w.who["T"].id, &httptypes.HTTPProxyRequest{RequestID: pendID, Method: "GET", URL: "http://d-secret-host.example:8080/", Timeout: 3})
+				r, err := w.srv.SM.SendHTTPProxyRequest(w.who["T"].id, &httptypes.HTTPProxyRequest{RequestID: pendID, Method: "GET", URL: "http://d-secret-host.example:8080/", Timeout: 25})
 				if err != nil {
 					done <- "error: " + err.Error()
 					return
@@ -693,26 +712,38 @@ func (w *world) stepResponse(sp *spec, c *Cell, rq *miniserver.Client, rid int64
 				done <- string(r.Body)
 			}()
 		}
-		// the request must show up on T's connection
-		deadline := time.Now().Add(3 * time.Second)
-		forwarded := false
-		for time.Now().Before(deadline) && !forwarded {
-			p, err := tc.Recv(time.Until(deadline))
-			if err != nil {
-				break
+		// the request must show up on T's connection (or the asker is turned away at once)
+		deadline := time.Now().Add(recvPatience)
+		forwarded, finished := false, false
+		for !forwarded && !finished && time.Now().Before(deadline) {
+			if tc.Near.Pending() > 0 {
+				p, err := tc.Recv(recvPatience)
+				if err != nil {
+					res.f = &fail{"C11/harness/packet-unreadable", fmt.Sprintf("T: %v", err)}
+					return
+				}
+				if p.CommandPacket != nil && p.CommandPacket.CommandType == wantType && p.CommandPacket.CommandId == pendID {
+					forwarded = true
+				}
+				continue
 			}
-			if p.CommandPacket != nil && p.CommandPacket.CommandType == wantType && p.CommandPacket.CommandId == pendID {
-				forwarded = true
+			select {
+			case <-done:
+				finished = true
+			default:
+				time.Sleep(100 * time.Microsecond)
 			}
 		}
 		if !forwarded {
 			// the legitimate request L->T was not forwarded: nothing is pending, nothing can be injected
-			select {
-			case <-done:
-			case <-time.After(8 * time.Second):
+			if !finished {
+				select {
+				case <-done:
+				case <-time.After(recvPatience):
+				}
 			}
 			for lc.Near.Pending() > 0 {
-				if _, err := lc.Recv(200 * time.Millisecond); err != nil {
+				if _, err := lc.Recv(recvPatience); err != nil {
 					break
 				}
 			}
@@ -721,7 +752,7 @@ func (w *world) stepResponse(sp *spec, c *Cell, rq *miniserver.Client, rid int64
 			return
 		}
 		if sp.Type == packet.HTTPProxyResponse {
-			time.Sleep(3 * time.Millisecond) // the waiter registers right after writing the request
+			time.Sleep(5 * time.Millisecond) // the waiter registers right after writing the request
 		}
 		// 1. the requester injects its answer   2. the real target answers
 		if isTarget {
@@ -746,7 +777,7 @@ func (w *world) stepResponse(sp *spec, c *Cell, rq *miniserver.Client, rid int64
 			// the answer may race with the waiter's registration (HTTP proxy): repeat until the asker is released
 			tick := time.NewTicker(5 * time.Millisecond)
 			defer tick.Stop()
-			stop := time.After(9 * time.Second)
+			stop := time.After(recvPatience)
 		waitL:
 			for {
 				select {
@@ -763,7 +794,7 @@ func (w *world) stepResponse(sp *spec, c *Cell, rq *miniserver.Client, rid int64
 		select {
 		case r := <-done:
 			got = r
-		case <-time.After(9 * time.Second):
+		case <-time.After(recvPatience):
 			res.f = &fail{"C11/harness/pending-request-never-released", fmt.Sprintf("%+v", *c)}
 			return
 		}
@@ -789,7 +820,7 @@ func (w *world) stepResponse(sp *spec, c *Cell, rq *miniserver.Client, rid int64
 			delete(out.others, "L")
 		}
 		for lc.Near.Pending() > 0 {
-			p, err := lc.Recv(300 * time.Millisecond)
+			p, err := lc.Recv(recvPatience)
 			if err != nil {
 				break
 			}
